@@ -799,6 +799,17 @@ func Hash64(parts ...string) uint64 {
 
 // FirstRepoFrame extracts the first github.com/open2b/scriggo function named in a stack trace.
 func FirstRepoFrame(stack string) string {
+	// when the panic was re-panicked by deferred functions the original site is
+	// below the last "panic(" line of the trace
+	if i := strings.LastIndex(stack, "\npanic("); i >= 0 {
+		if fr := firstRepoFrame(stack[i+1:]); fr != "" {
+			return fr
+		}
+	}
+	return firstRepoFrame(stack)
+}
+
+func firstRepoFrame(stack string) string {
 	for _, ln := range strings.Split(stack, "\n") {
 		ln = strings.TrimSpace(ln)
 		if strings.HasPrefix(ln, "github.com/open2b/scriggo") && strings.Contains(ln, "(") {
